@@ -61,7 +61,7 @@ def build_cmd(kind, k):
 
 
 def make_hid_world(driver, kinds, exc_on, limit, ret, nloss=1, tail=0, start_seq=1, cancel=False, cancel_who=0, eager=False, exc_via="attr",
-                   use_glob=False, fail_write_at=None):
+                   use_glob=False, fail_write_at=None, fail_handshake=0):
     """exc_on: whether callers want CommunicationError (True) or a transparent retry (False).  exc_via: how they say so -
     "attr": the driver-wide exceptions_on_send attribute; "arg": the per-call exceptions= argument, with the attribute set
     the OTHER way round (the argument has to win)."""
@@ -105,6 +105,7 @@ def make_hid_world(driver, kinds, exc_on, limit, ret, nloss=1, tail=0, start_seq
         w = HidWorld(driver, bus, callers, start_seq=start_seq, reconnect_limit=limit,
                      exceptions_on_send=(exc_on if exc_via == "attr" else not exc_on), loss=nloss > 0, returns=ret)
         w.loss_budget = nloss
+        w.fail_handshake_writes = fail_handshake    # ... or at a handshake write after it has returned (then it may return once more)
         w.fail_write_at = fail_write_at # the gateway disappears at exactly the n-th os.write made while the driver is connected
         w.use_glob = use_glob           # device named by a glob pattern; it comes back under the NEXT node name (USB re-enumeration)
         w.cmds = cmds
@@ -237,10 +238,16 @@ def judge_hid(res, cfg, w, obs):
         attempts = w.glob_calls if cfg.get("use_glob") else w.open_calls
         for tr in getattr(w, "return_times", []):
             later = [t for t, p in attempts if t > tr + 1e-6]
-            lost_again = [t for t, x in obs["status"] if x == "disconnected" and t > tr + 1e-6]
+            lost_again = [t for t, x in obs["status"] if x == "disconnected" and t > tr + 1e-6] + [t for t in getattr(w, "loss_times", []) if t > tr - 1e-6 and t >= tr]
+            lost_again = [t for t in lost_again if t > tr or getattr(w, "loss_times", []).count(t) and w.loss_times.index(t) > 0]
             if later and not [t for t, x in obs["status"] if x == "connected" and t >= later[0] - 1e-6] and not lost_again:
                 add_violation(res, f"C17:{tag}:not-reconnected-after-return", f"{cfg}: the gateway was back at t={tr} (node {w.node()}); reconnect attempts at "
                               f"{later[:4]} (looked for {[p for t, p in attempts if t > tr][:2]}) never connected; status callbacks {statuses}", case)
+        # a driver that is neither connected nor trying to reconnect must have said 'failed'
+        if w.status == "quiescent" and not connected_end and statuses[-1:] != ["failed"] and not obs.get("reconnect_pending", True):
+            add_violation(res, f"C17:{tag}:reconnect-abandoned", f"{cfg}: the driver is not connected, no reconnect attempt is scheduled and 'failed' was not reported "
+                          f"(reconnect task ended with {obs.get('reconnect_exception')}; loop exceptions {obs.get('loop_exceptions')}); status callbacks {statuses}, "
+                          f"device present: {w.device_present}; events {w.trace[-8:]}", case)
         if returned and connected_end:
             if statuses[-1] != "connected":
                 add_violation(res, f"C17:{tag}:status-reconnected-missing", f"{cfg}: status callbacks {statuses}", case)
@@ -403,6 +410,10 @@ def shards(tier):
             for exc_on in (True, False):
                 for nw in range(1, 6):
                     out.append(("loss", drv, kinds, exc_on, None, True, 0, 1 if tier == "quick" else 2, "attr", f"wfail:{nw}"))
+        # the gateway returns and vanishes again during the handshake (its first / second handshake write), then returns for good
+        for kinds, exc_on, limit in ((("num",), False, None), (("num",), True, None), (("num",), True, 3), ((), True, None)):
+            for n in (1, 2):
+                out.append(("loss", drv, kinds, exc_on, limit, True, 1, 1 if tier == "quick" else 2, "attr", f"hsfail:{n}"))
         # the device is named by a glob pattern and re-enumerates under another node name when it returns
         for kinds, exc_on, limit, nloss in ((("num",), True, None, 1), (("num",), False, None, 1), (("num", "off"), False, 3, 1), (("num",), True, 3, 2),
                                             (("seq",), True, None, 1)):
@@ -437,8 +448,9 @@ def run_shard(shard):
         via = shard[8] if len(shard) > 8 else "attr"
         use_glob = len(shard) > 9 and shard[9] == "glob"
         wfail = int(shard[9].split(":")[1]) if len(shard) > 9 and str(shard[9]).startswith("wfail:") else None
-        cfg = dict(driver=drv, kinds=list(kinds), exc_on=exc_on, limit=limit, ret=ret, nloss=nloss, bound=bound, exc_via=via, use_glob=use_glob, wfail=wfail)
-        mk = make_hid_world(drv, kinds, exc_on, limit, ret, nloss, exc_via=via, use_glob=use_glob, fail_write_at=wfail)
+        hsfail = int(shard[9].split(":")[1]) if len(shard) > 9 and str(shard[9]).startswith("hsfail:") else 0
+        cfg = dict(driver=drv, kinds=list(kinds), exc_on=exc_on, limit=limit, ret=ret, nloss=nloss, bound=bound, exc_via=via, use_glob=use_glob, wfail=wfail, hsfail=hsfail)
+        mk = make_hid_world(drv, kinds, exc_on, limit, ret, nloss, exc_via=via, use_glob=use_glob, fail_write_at=wfail, fail_handshake=hsfail)
         for ch, (w, obs) in explore(lambda c: execute(mk, c), bound):
             outs.add(judge_hid(res, cfg, w, obs))
             res["evaluations"] += 1
@@ -481,7 +493,7 @@ def replay(case):
                                 cancel_who=cfg.get("cancel_who", 0), eager=cfg.get("eager", False))
         else:
             mk = make_hid_world(cfg["driver"], tuple(cfg["kinds"]), cfg["exc_on"], cfg["limit"], cfg["ret"], cfg.get("nloss", 1),
-                                exc_via=cfg.get("exc_via", "attr"), use_glob=cfg.get("use_glob", False), fail_write_at=cfg.get("wfail"))
+                                exc_via=cfg.get("exc_via", "attr"), use_glob=cfg.get("use_glob", False), fail_write_at=cfg.get("wfail"), fail_handshake=cfg.get("hsfail", 0))
         for ch, (w, obs) in explore(lambda c: execute(mk, c), cfg.get("bound", 2)):
             n0 = len(res["violations"])
             judge_hid(res, cfg, w, obs)
